@@ -4,6 +4,37 @@
 #endif
 
 
+/* ghost tables of spec/sx.h.  In the proof they are arbitrary arrays (the
+ * contracts quantify over every table that satisfies the defining equations);
+ * the native replay computes them. */
+const size_t *g_sxW, *g_sxS, *g_sxD, *g_sxX, *g_sxE, *g_sxL;
+#if VERIF_IS_NATIVE
+static void sx_tables(const char *s, size_t n)
+{
+  size_t *W = calloc(SX_TAB_LEN, sizeof(size_t)), *S = calloc(SX_TAB_LEN, sizeof(size_t)),
+         *D = calloc(SX_TAB_LEN, sizeof(size_t)), *X = calloc(SX_TAB_LEN, sizeof(size_t)),
+         *E = calloc(SX_TAB_LEN, sizeof(size_t)), *L = calloc(SX_TAB_LEN, sizeof(size_t));
+  g_sxW = W; g_sxS = S; g_sxD = D; g_sxX = X; g_sxE = E; g_sxL = L;
+  if (n > SX_QMAX) return;
+  W[n] = S[n] = D[n] = X[n] = n; X[n + 1] = n + 1; L[n + 1] = SX_FAIL(n);
+  for (size_t k = n; k-- > 0;) {
+    W[k] = SPEC_SX_REF_ISSPACE(s[k]) ? W[k + 1] : k;
+    S[k] = SPEC_SX_REF_ISSYMCH(s[k]) ? S[k + 1] : k;
+    D[k] = SPEC_SX_REF_ISDIGIT(s[k]) ? D[k + 1] : k;
+    X[k] = SPEC_SX_REF_ISXDIGIT(s[k]) ? X[k + 1] : k;
+  }
+  for (size_t k = n + 1; k-- > 0;) {
+    const size_t j = W[k];
+    E[k] = SX_EXPR_END(s, n, j);
+    L[k] = SX_TAIL_END(s, n, k, j);
+  }
+}
+#define SX_TABLES(s, n) sx_tables((const char *)(s), (n));
+#else
+#define SX_TABLE_(g) { size_t *t_ = malloc(SX_TAB_LEN * sizeof(size_t)); ASSUME(t_ != NULL); g = t_; }
+#define SX_TABLES(s, n) SX_TABLE_(g_sxW) SX_TABLE_(g_sxS) SX_TABLE_(g_sxD) SX_TABLE_(g_sxX) SX_TABLE_(g_sxE) SX_TABLE_(g_sxL)
+#endif
+
 /* base target of the static-state invariants: a plain harness (no dfcc), the
  * statics have the values of their initialisers */
 void h_static_tables(void)
@@ -89,6 +120,7 @@ void h_sx_make_symboln(void)
   IN(size_t, in_live) IN(size_t, in_n) IN(size_t, in_i) \
   ASSUME(in_n <= SX_NMAX); \
   IN_MEM(in_s, in_n) \
+  SX_TABLES(in_s, in_n) \
   g_sx_live = in_live;
 
 void h_skip_ws(void)
@@ -170,6 +202,71 @@ void h_sx_parse_list(void)
   SX_INPUT()
   struct sx_parse_result r = sx_parse_list((const char *)in_s, in_n, in_i);
   (void)r;
+  VERIF_CANARY();
+}
+
+void h_sx_parse(void)
+{
+  SX_INPUT()
+  struct sx_parse_result r = sx_parse((const char *)in_s, in_n, in_i);
+  (void)r;
+  VERIF_CANARY();
+}
+
+void h_sx_parse_stringn(void)
+{
+  SX_INPUT()
+  struct sx_parse_result r = sx_parse_stringn((const char *)in_s, in_n);
+  (void)r;
+  VERIF_CANARY();
+}
+
+/* NUL-terminated: a block of exactly in_n + 1 octets, the NUL is the last */
+void h_sx_parse_string(void)
+{
+  GHOST_HAVOC();
+  IN(size_t, in_live) IN(size_t, in_n)
+  ASSUME(in_n <= SX_QMAX);
+  IN_MEM(in_s, in_n + 1)
+  for (size_t k = 0; k < SX_QMAX; k++)
+    if (k < in_n) ASSUME(in_s[k] != 0);
+  in_s[in_n] = 0;
+  g_a = in_n;
+  SX_TABLES(in_s, in_n)
+  g_sx_live = in_live;
+  struct sx_parse_result r = sx_parse_string((const char *)in_s);
+  (void)r;
+  VERIF_CANARY();
+}
+
+/* ---- the table equations (spec/sx.h) ---- */
+
+/* the range facts that the equations carry follow from the bare recurrences */
+void h_tables_ranges(void)
+{
+  IN(size_t, in_n)
+  ASSUME(in_n <= SX_QMAX);
+  IN_MEM(in_s, in_n)
+  const char *s = (const char *)in_s;
+  SX_TABLES(in_s, in_n)
+#if !VERIF_IS_NATIVE
+  const size_t n = in_n;
+#define SX_BARE_RUN(R, ISC) ((R)[n] == n && __CPROVER_forall { size_t k_; (k_ < SX_QMAX) ==> ((k_ < n) ==> \
+      (R)[k_] == (ISC(s[k_]) ? (R)[k_ + 1] : k_)) })
+  ASSUME(SX_BARE_RUN(g_sxW, SPEC_SX_ISSPACE) && SX_BARE_RUN(g_sxS, SPEC_SX_ISSYMCH)
+         && SX_BARE_RUN(g_sxD, SPEC_SX_ISDIGIT) && SX_BARE_RUN(g_sxX, SPEC_SX_ISXDIGIT) && g_sxX[n + 1] == n + 1);
+  ASSUME(__CPROVER_forall { size_t k_; (k_ < SX_QMAX + 1) ==> ((k_ <= n) ==>
+        (g_sxE[k_] == SX_EXPR_END(s, n, g_sxW[k_]) && g_sxL[k_] == SX_TAIL_END(s, n, k_, g_sxW[k_]))) });
+  ASSUME(g_sxL[n + 1] == SX_FAIL(n));
+#endif
+  IN(size_t, in_k)
+  ASSUME(in_k <= in_n);
+  CHECK(in_k <= g_sxW[in_k] && g_sxW[in_k] <= in_n, "recurrence => k <= W[k] <= n");
+  CHECK(in_k <= g_sxS[in_k] && g_sxS[in_k] <= in_n, "recurrence => k <= S[k] <= n");
+  CHECK(in_k <= g_sxD[in_k] && g_sxD[in_k] <= in_n, "recurrence => k <= D[k] <= n");
+  CHECK(in_k <= g_sxX[in_k] && g_sxX[in_k] <= in_n, "recurrence => k <= X[k] <= n");
+  CHECK(g_sxE[in_k] == SX_FAIL(in_n) || (in_k < g_sxE[in_k] && g_sxE[in_k] <= in_n), "recurrence => k < E[k] <= n or FAIL");
+  CHECK(g_sxL[in_k] == SX_FAIL(in_n) || (in_k < g_sxL[in_k] && g_sxL[in_k] <= in_n), "recurrence => k < L[k] <= n or FAIL");
   VERIF_CANARY();
 }
 
